@@ -48,6 +48,12 @@ def run(ck, facts, tier):
     _cl.trivial_subst_kinds(ck, facts, "C04.FULFILL-APPLY")
     from shared import zippers
     zippers.answer_subst(ck, facts, "C04.ANSWER-SUBST")
+    # a definite answer of one engine computed from a provisional (later revised) cycle value contradicts the other engine:
+    # the recursive solver's SCC bookkeeping and fixed-point test are shared with C01 / C05 / C10
+    from props.c10 import scc_links
+    scc_links(ck, facts, "C04.PROVISIONAL")
+    from shared import fixedpoint
+    fixedpoint.table(ck, facts, "C04.FIXED-POINT-TABLE", which=("stale",))
     R = "C04.CLAUSE-SOURCES"
     ck.rule(R, "K5: build_table and solve_from_clauses both use exactly {program_clauses_that_could_match, custom_clauses, "
                "program_clauses_for_env(&goal.environment)}, apply the could_match filter to all three, and map Err(Floundered) to "
